@@ -2963,8 +2963,14 @@ class Group(System):
         Jacobian
             The initialized jacobian.
         """
+        had_relevance = self._old_relevance[0] is not None
         if self._relevance_changed():
             self._jacobian = None
+            if had_relevance and self._owns_approx_jac and self.pathname:
+                # the semi-total approximations were chosen (on the first linearization) using
+                # the previous relevance, so choose them again using the current one.
+                self._clear_jac_caches()
+                self._setup_approx_derivs()
 
         if self._jacobian is None:
             if self._owns_approx_jac:
